@@ -19,6 +19,9 @@ type exec struct {
 	entry     *State
 	topVars   map[string]specVal
 	topFn     *ssa.Function
+	pending      map[string]*pendingGroup
+	pendingOrder []string
+	cellIDs      map[string]int
 }
 
 type callSite struct {
@@ -117,7 +120,11 @@ func (x *exec) condDesc(v ssa.Value) string {
 }
 
 func (x *exec) pushFrame(st *State, fn *ssa.Function, args []Val, bind []Val, k func(*State, Outcome)) {
-	fr := &Frame{fn: fn, env: map[ssa.Value]Val{}, names: map[string]Val{}, nameAddr: map[string]bool{},
+	x.pushFrameAt(st, fn, args, bind, k, token.NoPos)
+}
+
+func (x *exec) pushFrameAt(st *State, fn *ssa.Function, args []Val, bind []Val, k func(*State, Outcome), site token.Pos) {
+	fr := &Frame{site: site, fn: fn, env: map[ssa.Value]Val{}, names: map[string]Val{}, nameAddr: map[string]bool{},
 		k: k, active: map[*ssa.BasicBlock]int{}, depth: len(st.frames)}
 	if len(args) != len(fn.Params) {
 		panic(unsupported(fmt.Sprintf("call of %s with %d args, want %d", fn.Name(), len(args), len(fn.Params))))
@@ -307,13 +314,37 @@ func (x *exec) loopHeader(st *State, b, pred *ssa.BasicBlock, li *loopInfo, nphi
 		g := se.evalBool(inv.Expr)
 		x.oblige(st, "inv-entry", inv.Label, fmt.Sprintf("loop%d", li.ordinal), g, b.Instrs[0].Pos())
 	}
+	if st.rec == nil {
+		// join point: continue once from the merged state of all arrivals (merge.go)
+		x.addPending(st, b, li)
+		return false
+	}
+	x.enterLoopInPlace(st, b, li, ls, nphi)
+	return true
+}
+
+// enterLoop continues the exploration from a loop header with the merged arrival state.
+func (x *exec) enterLoop(st *State, b *ssa.BasicBlock, li *loopInfo) {
+	fr := st.top()
+	ls := x.e.Specs.Contracts[CanonKey(fr.fn)].Loops[li.ordinal]
+	nphi := 0
+	for _, in := range b.Instrs {
+		if _, ok := in.(*ssa.Phi); ok {
+			nphi++
+		}
+	}
+	x.enterLoopInPlace(st, b, li, ls, nphi)
+	x.runInstrs(st, b, nphi)
+}
+
+func (x *exec) enterLoopInPlace(st *State, b *ssa.BasicBlock, li *loopInfo, ls *LoopSpec, nphi int) {
 	// discovery pass: which heap keys / cells does one iteration write?
 	rec := x.discover(st, b, li)
 	// havoc
 	x.havocLoop(st, b, li, rec, nphi)
-	fr = st.top()
+	fr := st.top()
 	fr.active[b] = 1
-	se = x.bodyEnv(st)
+	se := x.bodyEnv(st)
 	for _, inv := range ls.Invariants {
 		st.assume(se.evalBool(inv.Expr))
 	}
@@ -324,7 +355,6 @@ func (x *exec) loopHeader(st *State, b, pred *ssa.BasicBlock, li *loopInfo, nphi
 		fr.measure[b] = se.evalInt(ls.Decreases.Expr)
 	}
 	st.path = append(st.path, fmt.Sprintf("loop%d", li.ordinal))
-	return true
 }
 
 func (x *exec) discover(st *State, b *ssa.BasicBlock, li *loopInfo) *recorder {
@@ -658,8 +688,14 @@ func (x *exec) oblige(st *State, kind, label, detail string, goal Term, pos toke
 	if x.ctx.suppress > 0 {
 		return
 	}
-	if goal.IsTrue() {
+	if goal.IsTrue() || st.pcSet[goal.S] {
 		x.ctx.trivial++
+		return
+	}
+	if st.storageFault && kind != "panic_ensures" && kind != "frame" && kind != "panic" {
+		// a storage primitive has failed on this path (OpError panic in flight): the node is
+		// terminating; only the exceptional postconditions are checked from here on
+		x.ctx.faultSkipped++
 		return
 	}
 	fn := x.ctx.Key
